@@ -279,7 +279,13 @@ func (m *Muxer) WriteData(d *MuxerData) (int, error) {
 		if !pkt.Header.HasPayload {
 			// The adaptation field leaves no room for the PES header: it's sent in a packet of its own. A packet
 			// without payload doesn't advance the continuity counter, it repeats the one of the previous packet
-			pkt.Header.ContinuityCounter = uint8(ctx.cc.get()) & 0xf
+			// When no packet has been sent yet it's the value that precedes the first one (a new counter is one past its
+			// maximum so that the first inc() gives 0)
+			cc := ctx.cc.get()
+			if cc > 0xf {
+				cc = 0xf
+			}
+			pkt.Header.ContinuityCounter = uint8(cc)
 			n, err = writePacket(m.bitsWriter, &pkt, m.packetSize)
 			if err != nil {
 				return bytesWritten, err
